@@ -6,6 +6,7 @@ CONSTANT MutShareMembers = FALSE
 CONSTANT MutNoRescope = FALSE
 CONSTANT MutStaleProcs = FALSE
 CONSTANT MutRegisterInParent = FALSE
+CONSTANT MutShareNest = FALSE
 CONSTANT MaxDepth = 99
 CONSTANT GenDepth = 2
 CONSTANT PreOps = 0
